@@ -87,6 +87,15 @@ def chk_quad(inp):
         return bad("quad-cell signal does not change sign under mirroring")
     if not close(q[:, 1], CN.quadCell(st[1])):
         return bad("quadCell: stack item differs from single frame")
+    # camera frames are unsigned integers: the signal of the mirrored image is the negative number, whatever the storage type
+    base = rng.integers(0, 200, size=(5, 2, 2))
+    ref = CN.quadCell(base.astype(float))
+    for dt in ("uint8", "uint16", "uint32", "uint64", "int16", "int64", "float32"):
+        im = base.astype(dt)
+        q, qx, qy = CN.quadCell(im), CN.quadCell(im[..., ::-1]), CN.quadCell(im[..., ::-1, :])
+        if not (close(numpy.asarray(q, dtype=float), ref) and close(numpy.asarray(qx, dtype=float)[0], -ref[0]) and close(numpy.asarray(qy, dtype=float)[1], -ref[1])):
+            return bad("quad-cell signal of a %s image is not the signed difference of the half sums / does not change sign under mirroring" % dt,
+                       [numpy.asarray(q, dtype=float)[:, 0].tolist(), numpy.asarray(qx, dtype=float)[:, 0].tolist()], [ref[:, 0].tolist(), (-ref[0, 0], ref[1, 0])])
 
 
 def chk_corr(inp):
